@@ -153,6 +153,21 @@ TPublish ==
   /\ PublishBody
   /\ UNCHANGED <<ctx, saved, notified>>
 
+(* a publish of labels outside the modelled set: a new epoch and root, the modelled leaves unchanged, the leaves it *)
+(* must have left in the tree all there (counted by the harness); the foreign history becomes part of the memo key  *)
+OtherToken == IF Len(ctx) >= 3 THEN ctx[3] ELSE <<>>
+TPublishOther ==
+  /\ IsEv("publish_other")
+  /\ Ev.res = "ok" /\ Ev.txn_open = FALSE
+  /\ PublishOther
+  /\ Ev.epoch = epoch' /\ Ev.root_ok
+  /\ ToSet(Ev.leaves) = LeavesOf(hist) /\ Len(Ev.leaves) = Cardinality(LeavesOf(hist))
+  /\ Ev.other = Ev.other_expected
+  /\ roots' = Append(roots, Ev.root)
+  /\ ctx' = <<ctx[1], ctx[2], Append(OtherToken, <<epoch + 1, Ev.tag, Ev.count, Ev.version>>)>>
+  /\ MemoUpdate(ctx', hist, Ev.root)
+  /\ UNCHANGED <<saved, notified>>
+
 TTombstone ==
   /\ IsEv("tombstone")
   /\ Ev.res = "ok"
@@ -273,7 +288,7 @@ TNext ==
   \/ TReset \/ TPublish \/ TTombstone \/ TEpochHash \/ TLookup \/ TBatchLookup
   \/ THistory \/ TAudit \/ TAuditTamper \/ TWire \/ TReopen \/ TCrash
   \/ TBootstrap \/ TForgeLookup \/ TForgeHistory \/ TDTree \/ TForgeMix \/ TForgeStale
-  \/ TPublishFault \/ TSave \/ TRestore \/ TRAnswer \/ TCPublish \/ TFinalLeaves \/ TNotify
+  \/ TPublishFault \/ TSave \/ TRestore \/ TRAnswer \/ TCPublish \/ TFinalLeaves \/ TNotify \/ TPublishOther
 
 TSpec == TInit /\ [][TNext]_tvars
 
